@@ -32,8 +32,8 @@ type Directive struct {
 }
 
 type DirMap struct {
-	Order []string // the directives list
-	Pos   token.Pos
+	Order  []string // the directives list
+	Pos    token.Pos
 	ByName map[string]*Directive
 }
 
